@@ -18,12 +18,19 @@ R1.6  the scan that decides how much to hold back covers every byte the delimite
       covers;
 R1.7  when no delimiter was found, what is deleted from the buffer reaches at least to the
       start of the returned payload (the line break skipped in front of a part body is
-      consumed together with the decision to skip it).
+      consumed together with the decision to skip it);
+R1.8  the line break that opens a part body is skipped once per part: on every path through
+      next_event, a splitter call that skips it deletes it from the buffer if and only if the
+      decoder leaves the protocol states in which the splitter skips;
+R1.9  the form parser collects the payload of every Data event as received and joins the
+      collected pieces with nothing in between (no per-piece decode / strip / replace / slice:
+      the pieces are cut wherever the read buffer ends).
 """
 
 from __future__ import annotations
 
 import ast
+import re
 import typing as t
 
 from .. import astq
@@ -33,12 +40,12 @@ from ..fold import Folder, RegexConst, Unfoldable
 from ..loader import AnalysisError, AnchorMissing, ClassInfo, FuncInfo, dotted, is_self_attr, norm, walk_no_nested
 from ..report import Ctx
 from ._c01_helpers import (
-    EV_START, PLACEHOLDER, RD_EMPTY, ReadFlow, SAMPLE_N, Aff, AffEval, EvFact, EventFlow, Lang, Lin, NotAffine, Roles, SearchSite, Typestate, fit, fmt_off,
+    EV_START, PLACEHOLDER, RD_EMPTY, ReadFlow, SAMPLE_N, Aff, AffEval, EvFact, EventFlow, FieldFlow, Lang, Lin, NotAffine, PathExec, Roles, SearchSite, Typestate, fit, fmt_off,
     anchor_summary, attr_copies, attr_of, bind_args, self_call_closure, state_test_parts, strip_max0, windowed_searches,
 )
 
 LEVEL_TEXT = (
-    "Static decision of seven structural clauses of C01 on /repo's current source, with the boundary symbolic (any length >= 1) "
+    "Static decision of nine structural clauses of C01 on /repo's current source, with the boundary symbolic (any length >= 1) "
     "and delimiters without trailing blanks: (R1.1) wherever MultipartDecoder.next_event searches the buffer from a saved "
     "offset, every window `len(buffer) - K` that can reach that search has K >= the longest proper prefix of a word of the "
     "pattern searched there in which the pattern does not match yet (what a failed search can leave at the end of the buffer), "
@@ -62,7 +69,19 @@ LEVEL_TEXT = (
     "later than the delimiter search; (R1.7) on every return of _parse_data that continues the part (deleted prefix = hold-back position or whole "
     "buffer) `deleted prefix - payload start` has a lower bound >= 0 as an affine expression over len(buffer) >= match positions >= 0, "
     "anchor results >= 0 (or >= -1 for an rfind-style anchor) and len(boundary) >= 1, so the line break skipped in front of a part body never "
-    "stays in the buffer to be read again as payload. A window assignment that sits in a private helper is read per call site with the helper's "
+    "stays in the buffer to be read again as payload; (R1.8) every path through next_event from every protocol state is followed with the helpers "
+    "that touch the state or the buffer inlined (protocol state concrete, locals symbolic, a condition over locals decided once per path so that "
+    "`more = m is None`, `if m is not None` and `if more` agree; results unpacked from tuples, read back by index or from the fields of an event built on "
+    "the path; `while` loops unrolled up to a bound): on a path where the splitter call skipped a line break in front of the payload, either a prefix "
+    "is deleted from the buffer afterwards and next_event ends in a state in which the splitter does not skip, or nothing is deleted and it ends in a state "
+    "in which it skips - otherwise the next call skips a second line break (the payload's own) or reads the skipped one again as payload; whether a call "
+    "skips must be decided by the protocol state (a skip that hangs on another flag stops with ANALYSIS-ERROR); (R1.9) in MultiPartParser.parse and the "
+    "helpers it hands the decoder, the event or the payload to, every read of the bytes payload of the event class that carries the `more data` flag is "
+    "followed (locals, bytes()/memoryview() copies, casts, byte-wise maps, conditional expressions, helper parameters, a collecting callable held in a "
+    "local or passed as an argument) to where it is collected (append / write / extend / `+=` / stored): no method of the payload (decode, strip, replace, "
+    "split, ...), slice or str(..., encoding) may be applied to the single piece on the way, because the pieces are cut where the read buffer ends; "
+    "a list the pieces are collected in is joined with an empty separator, its elements as they are (not decoded or otherwise transformed one by one); "
+    "uses of the payload that are not understood stop with ANALYSIS-ERROR. A window assignment that sits in a private helper is read per call site with the helper's "
     "parameters replaced by the call's arguments; attributes assigned once in __init__ (a precomputed tail length / delimiter text) are read through; "
     "the buffer and the offset may be read through local copies. In _parse_data release positions are followed through locals, tuple assignments, "
     "match.span(), conditional expressions (their conditions count as guards) and one-expression helpers (read at the call site); the presence "
@@ -70,7 +89,9 @@ LEVEL_TEXT = (
     "they model (boundary-text presence tests, the start flag, match tests, the threshold) and otherwise stop with "
     "ANALYSIS-ERROR. It decides these clauses on all paths. It does NOT decide the equality of event streams itself: "
     "that the hold-back position is the right cut for every mixture of CR and LF in the payload beyond R1.5/R1.6, the "
-    "consumption of the line break that opens a part body beyond R1.6/R1.7, header parsing, and the size limits are out of scope."
+    "consumption of the line break that opens a part body beyond R1.6-R1.8 (e.g. what the line-break pattern itself matches), header parsing, the size limits, "
+    "and anything else the form parser computes per Data event (R1.9 follows the payload bytes only: a value derived from the number of events, what a "
+    "stream_factory container does with its writes, and the final decode of the joined value are not examined) are out of scope."
 )
 TRUSTED = [
     "CPython ast and re._parser (pattern syntax trees, widths)",
@@ -86,6 +107,8 @@ ASSUMPTIONS = [
     "the boundary contains no line break and is not empty",
     "after an exception the decoder is not used again (raising exits are not followed)",
     "preamble and epilogue bytes are not compared (property text)",
+    "R1.8: methods of the decoder (and functions of its module) that assign the protocol state, delete from the buffer or search it are inlined; other calls are opaque and do not touch the decoder; a condition that reads an attribute or calls something is followed both ways (never assumed to repeat its answer), a condition over locals only keeps its answer along the path; the deleted length counts as non-zero unless the path itself tested it to be zero (R1.7 bounds it from below by the payload start)",
+    "R1.9: the payload class is the event class with one bytes field and a bool field; a name holds an event when it is bound to next_event() (directly, through a helper / generator that is handed the decoder, iter(next_event, CONST)), is the parameter an event was passed as, or is guarded by isinstance(name, <payload class>); bytes.upper/lower/swapcase/translate/hex are byte-wise (the result does not depend on the cut) and are not C01's concern",
 ]
 
 DECODER = "sansio.multipart.MultipartDecoder"
@@ -100,6 +123,8 @@ RULES = {
     "R1.5": "the early-release guard measures the pending tail from the last line-break byte, not from an earlier one",
     "R1.6": "the hold-back scan covers every byte covered by the delimiter search",
     "R1.7": "when no delimiter was found, the prefix deleted from the buffer reaches at least to the start of the returned payload",
+    "R1.8": "the line break that opens a part body is skipped once per part: a call of next_event that skips it deletes it from the buffer if and only if it leaves the protocol states that skip",
+    "R1.9": "the form parser collects every Data payload as received and joins the collected pieces with nothing in between: no per-chunk transformation whose result depends on where the payload was cut",
 }
 
 
@@ -657,6 +682,7 @@ def rules_feed(ctx: Ctx, roles: Roles) -> None:
         ctx.saw(ffi)
     for chunker in seen_chunkers:
         rule_chunker(ctx, chunker)
+    rules_fields(ctx, flow, owners)
 
 
 def rule_chunker(ctx: Ctx, fi: FuncInfo) -> None:
@@ -1146,7 +1172,7 @@ class Splitter:
         return out
 
 
-def rules_splitter(ctx: Ctx, roles: Roles, pats: Patterns, folder: Folder) -> None:
+def rules_splitter(ctx: Ctx, roles: Roles, pats: Patterns, folder: Folder) -> Splitter:
     sp = Splitter(ctx, roles, pats, folder)
     fi = sp.fi
     ctx.saw(fi)
@@ -1344,6 +1370,126 @@ def rules_splitter(ctx: Ctx, roles: Roles, pats: Patterns, folder: Folder) -> No
                   f"moves on, and are then read again as payload (e.g. the chunk ends right after the blank line of the part headers: the part's data starts with a stray line break)"),
                fi, it["stmt"], f"deleted prefix covers payload start ({branch}, {'hold-back' if it['kind'] == 'HOLD' else 'whole buffer'})")
     ctx.floor("R1.7", "deleted prefixes on paths that continue the part", n17, 1)
+    return sp
+
+
+# ---------------------------------------------------------------------------
+# R1.8: the opening line break of a part body is consumed exactly once
+
+
+def rules_skip_once(ctx: Ctx, roles: Roles, sp: Splitter) -> None:
+    """every path through next_event (helpers that touch the state or the buffer inlined), from every protocol state: a call of the
+    splitter that skips a line break in front of the payload and the deletion that follows it go together with leaving the states
+    in which the splitter skips"""
+    repo = ctx.repo
+    ts = Typestate(repo, roles, lambda *a, **k: None)
+    lower_of = {id(r): lower for r, what, _, lower in sp.release if what == "payload end"}
+    px = PathExec(repo, roles, ts, sp.fi, lower_of)
+    paths = {s: px.paths_from(s) for s in roles.members}
+
+    def skipping_calls(p) -> list[tuple[int, tuple, tuple]]:
+        out = []
+        for i, ev in enumerate(p.events):
+            if ev[0] == "call":
+                ret = next((e2 for e2 in p.events[i + 1:] if e2[0] == "ret"), None)
+                if ret is not None and ret[1]:
+                    out.append((i, ev, ret))
+        return out
+
+    # whether a call skips must be a function of the protocol state the decoder was in
+    for s, ps in paths.items():
+        seen: dict[int, set[bool]] = {}
+        where: dict[int, tuple] = {}
+        for p in ps:
+            for i, ev in enumerate(p.events):
+                if ev[0] == "call":
+                    ret = next((e2 for e2 in p.events[i + 1:] if e2[0] == "ret"), None)
+                    if ret is not None:
+                        seen.setdefault(ev[1], set()).add(bool(ret[1]))
+                        where[ev[1]] = ev
+        for cid, kinds in seen.items():
+            if len(kinds) > 1:
+                cfi, call = where[cid][2], where[cid][3]
+                raise AnalysisError(f"{cfi.loc(call)}: in state {s}, whether `{norm(call)}` skips a line break in front of the payload is not decided by the protocol state "
+                                    f"(it depends on a flag that is not followed): not modelled")
+    skip_states = sorted(s for s, ps in paths.items() if any(skipping_calls(p) for p in ps))
+    ctx.floor("R1.8", "protocol states in which the splitter is called so that it skips the opening line break", len(skip_states), 1)
+    for s in skip_states:
+        bad: list[tuple[t.Any, bool, tuple]] = []
+        n_paths = 0
+        exits: set[str] = set()
+        first_call = None
+        for p in paths[s]:
+            for i, ev, ret in skipping_calls(p):
+                first_call = first_call or ev
+                n_paths += 1
+                dels = [e2 for e2 in p.events[i + 1:] if e2[0] == "del" and not px.deleted_nothing(e2[1], p)]
+                consumed = bool(dels)
+                exits.add(p.state)
+                if consumed == (p.state in skip_states):
+                    bad.append((p, consumed, ev))
+        assert first_call is not None
+        cfi, call = first_call[2], first_call[3]
+        fact = f"{n_paths} path(s) through {roles.entry.qualname} from state {s} call `{norm(call)}` with the skip of the opening line break; states they end in: {sorted(exits)}; states that skip: {skip_states}"
+        if bad:
+            bad.sort(key=lambda b: len(b[0].val))
+            p, consumed, ev = bad[0]
+            conds = ", ".join(f"`{re.sub(r'@[A-Za-z_0-9]+:[0-9]+(?::[0-9a-z]+|\\[[0-9]+\\])*', '', k)}` is {v}" for k, v in sorted(p.val.items())) or "no condition"
+            if consumed:
+                fact += (f"; on the path with {conds} the skipped line break is deleted from the buffer but the decoder stays in state {p.state}: the next call skips a second line break, "
+                         f"the payload's own first one (e.g. the chunk ends right after the blank line that ends the part headers and the payload starts with a line break: one piece keeps it, two pieces lose it)")
+            else:
+                fact += (f"; on the path with {conds} the decoder moves on to state {p.state} but nothing is deleted from the buffer: the line break that was skipped is still there and is read again as payload")
+        ctx.ob("R1.8", f"{cfi.qualname}: the line break that opens a part body is consumed exactly once (decoder in state {s})", not bad, fact, cfi, call, f"opening line break consumed once ({s})")
+    ctx.note(f"R1.8: {px.steps} step(s) of the path executor over {len(roles.members)} protocol states")
+
+
+# ---------------------------------------------------------------------------
+# R1.9: field values do not depend on where the payload was cut
+
+
+def rules_fields(ctx: Ctx, flow: EventFlow, owners: list[tuple[FuncInfo, str]]) -> None:
+    ff = FieldFlow(ctx.repo, flow, owners)
+    owner = owners[0][0]
+    ctx.floor("R1.9", f"reads of the payload `{ff.cls_name}.{ff.attr}` of an event in the form parser", len(ff.reads), 1)
+    n_sinks = 0
+    any_changed = False
+    for rec in ff.reads:
+        fi, node = rec["fi"], rec["node"]
+        sinks = rec["sinks"]
+        n_sinks += len(sinks)
+        changed = [s_ for s_ in sinks if s_["via"]]
+        if rec["unknown"] and not changed:
+            ufi, unode, why = rec["unknown"][0]
+            raise AnalysisError(f"{ufi.loc(unode)}: the payload `{norm(node)}` is {why}: not modelled")
+        if not sinks:
+            continue  # only measured / tested
+        any_changed = any_changed or bool(changed)
+        where = changed[0] if changed else sinks[0]
+        how = sorted({" . ".join(s_["via"]) for s_ in changed})
+        recv = sorted({s_["receiver"] for s_ in sinks})
+        ctx.ob("R1.9", f"{fi.qualname}: the payload of a Data event is collected as received", not changed,
+               f"`{norm(node)}` reaches {[norm(s_['node'])[:70] for s_ in sinks]} (collected in {recv})"
+               + (f"; before that each piece goes through `{'`, `'.join(how)}` on its own: the result depends on where the payload was cut, i.e. on the read buffer size and on short reads "
+                  f"(e.g. a multi-byte UTF-8 character that straddles two reads is decoded in two halves)" if changed else ": unmodified or through a byte-wise map"),
+               where["fi"], where["node"], f"payload collected ({' . '.join(changed[0]['via']) if changed else 'as received'})")
+    ctx.floor("R1.9", "places where a payload is collected", n_sinks, 1)
+    joins = ff.joins()
+    lists = ff.list_receivers()
+    if lists and not joins and not any_changed:
+        fi0, st0 = next(iter(lists.values()))
+        raise AnalysisError(f"{fi0.loc(st0)}: the list the payloads are collected in is not consumed by a `.join(...)`: not modelled")
+    for j in joins:
+        fi, c = j["fi"], j["call"]
+        if j["sep_ok"] is None or j["elem"] is None:
+            raise AnalysisError(f"{fi.loc(c)}: `{norm(c)}` joins the collected payloads in a way that is not modelled (separator / elements)")
+        ok = j["sep_ok"] and j["elem"] == ""
+        ctx.ob("R1.9", f"{fi.qualname}: the collected payloads are joined as they are, with nothing in between", ok,
+               f"`{norm(c)[:90]}`: separator `{norm(j['sep'])}` is {'empty' if j['sep_ok'] else 'NOT empty: the value depends on the number of pieces'}; elements "
+               + ("as collected" if j["elem"] == "" else f"transformed one by one (`{j['elem']}`): the result depends on where the payload was cut"),
+               fi, c, f"join of collected payloads ({j['receiver']})")
+    for fi in ff.scope:
+        ctx.saw(fi)
 
 
 # ---------------------------------------------------------------------------
@@ -1358,4 +1504,5 @@ def run(ctx: Ctx) -> None:
     pats = Patterns(repo, folder, roles.cls)
     rules_offset(ctx, roles, pats, folder)
     rules_feed(ctx, roles)
-    rules_splitter(ctx, roles, pats, folder)
+    sp = rules_splitter(ctx, roles, pats, folder)
+    rules_skip_once(ctx, roles, sp)
